@@ -192,7 +192,7 @@ func (db *RockDB) fullScanCommon(tp byte, key []byte, count int, match string,
 	}
 
 	count = checkScanCount(count)
-	it, err := db.buildFullScanIterator(tp, table, rk, count)
+	it, err := db.buildFullScanIterator(tp, table, rk, count, r != nil)
 	if err != nil {
 		return buildErrFullScanResult(err, common.NONE)
 	}
@@ -271,7 +271,7 @@ func (db *RockDB) fullScanCommon(tp byte, key []byte, count int, match string,
 }
 
 func (db *RockDB) buildFullScanIterator(storeDataType byte, table,
-	key []byte, count int) (*engine.RangeLimitedIterator, error) {
+	key []byte, count int, hasMatch bool) (*engine.RangeLimitedIterator, error) {
 	k, c, err := decodeFullScanCursor(key)
 	if err != nil {
 		return nil, err
@@ -288,7 +288,13 @@ func (db *RockDB) buildFullScanIterator(storeDataType byte, table,
 
 	dbLog.Debugf("full scan range: %v, %v, %v, %v", minKey, maxKey, string(minKey), string(maxKey))
 	//	minKey = minKey[:0]
-	it, err := db.NewDBRangeLimitIterator(minKey, maxKey, common.RangeOpen, 0, count+1, false)
+	limit := count + 1
+	if hasMatch {
+		// the elements which do not match are skipped by the caller, they should not use up the limit
+		// (the scan would answer the empty cursor before the end of the table)
+		limit = -1
+	}
+	it, err := db.NewDBRangeLimitIterator(minKey, maxKey, common.RangeOpen, 0, limit, false)
 	if err != nil {
 		return nil, err
 	}
